@@ -153,6 +153,9 @@ func buildRequest(rng *rand.Rand, sc *Scenario, m methodInfo, cp clientPlan, hos
 		sc.Req.ProtoMajor = 1
 	}
 	sc.Req.BodyEnd = "eof"
+	if rng.IntN(4) == 0 {
+		sc.Req.BodyEnd = "eofdata"
+	}
 	sc.Req.ContentLength = -1
 	add := func(k, v string) { sc.Req.Headers = append(sc.Req.Headers, []string{hs(k), hs(v)}) }
 	nmsg := 1
@@ -677,41 +680,146 @@ func streamE2E(e *Emitter, rng *rand.Rand, tier string) {
 		n = 40000
 	}
 	for i := 0; i < n; i++ {
-		sc := &Scenario{}
-		sc.Cfg.Protocols = subset(rng, []string{"connect", "grpc", "grpcweb"}, true)
-		if rng.IntN(15) == 0 {
-			sc.Cfg.Protocols = append(sc.Cfg.Protocols, "rest")
-		}
-		sc.Cfg.Codecs = subset(rng, []string{"raw", "hexa", "rev"}, true)
-		sc.Cfg.Compress = subset(rng, []string{"Z", "Y"}, false)
-		sc.Cfg.MaxMsg = pick(rng, []uint32{8, 16, 40, 1000})
-		sc.Cfg.MaxGetURL = pick(rng, []uint32{40, 70, 90, 200})
-		sc.Cfg.Unknown = rng.IntN(3) == 0
-		m := pick(rng, methods)
-		hostile := rng.IntN(5) == 0 // 20% of the requests may be invalid in their protocol
-		cp := clientPlan{codec: pick(rng, []string{"raw", "hexa", "rev"}), comp: pick(rng, []string{"", "", "Z", "Y", "identity"})}
-		if hostile {
-			cp.codec = pick(rng, []string{"raw", "hexa", "rev", "bogus", ""})
-			cp.comp = pick(rng, []string{"", "Z", "Y", "bogus", "gzip"})
-			e.Class("req:hostile")
-		}
-		if (m.clientStr || m.serverStr) != hostile {
-			cp.proto = pick(rng, []string{"grpc", "grpcweb", "connect-stream"})
-		} else {
-			cp.proto = pick(rng, []string{"grpc", "grpcweb", "connect-unary", "connect-unary"})
-		}
-		buildRequest(rng, sc, m, cp, hostile, e)
-		ss, ok := probe(sc)
-		if ok {
-			buildResponse(rng, sc, m, ss, e)
-			e.Class("pair:" + cp.proto + "->" + ss.proto)
-		} else {
-			sc.Script = [][]string{{"readall", "16"}, {"status", "200"}, {"write", hs("x")}}
-			e.Class("pair:" + cp.proto + "->(not dispatched)")
-		}
-		e.Class("method:" + m.name)
+		sc := genScenario(e, rng)
 		raw, _ := json.Marshal(sc)
 		e.Emit("e2e " + hex.EncodeToString(raw))
+	}
+}
+
+// genScenario draws one whole-request scenario (configuration, request, backend script).
+func genScenario(e *Emitter, rng *rand.Rand) *Scenario {
+	sc := &Scenario{}
+	sc.Cfg.Protocols = subset(rng, []string{"connect", "grpc", "grpcweb"}, true)
+	if rng.IntN(15) == 0 {
+		sc.Cfg.Protocols = append(sc.Cfg.Protocols, "rest")
+	}
+	sc.Cfg.Codecs = subset(rng, []string{"raw", "hexa", "rev"}, true)
+	sc.Cfg.Compress = subset(rng, []string{"Z", "Y"}, false)
+	sc.Cfg.MaxMsg = pick(rng, []uint32{8, 16, 40, 1000})
+	sc.Cfg.MaxGetURL = pick(rng, []uint32{40, 70, 90, 200})
+	sc.Cfg.Unknown = rng.IntN(3) == 0
+	m := pick(rng, methods)
+	hostile := rng.IntN(5) == 0 // 20% of the requests may be invalid in their protocol
+	cp := clientPlan{codec: pick(rng, []string{"raw", "hexa", "rev"}), comp: pick(rng, []string{"", "", "Z", "Y", "identity"})}
+	if hostile {
+		cp.codec = pick(rng, []string{"raw", "hexa", "rev", "bogus", ""})
+		cp.comp = pick(rng, []string{"", "Z", "Y", "bogus", "gzip"})
+		e.Class("req:hostile")
+	}
+	if (m.clientStr || m.serverStr) != hostile {
+		cp.proto = pick(rng, []string{"grpc", "grpcweb", "connect-stream"})
+	} else {
+		cp.proto = pick(rng, []string{"grpc", "grpcweb", "connect-unary", "connect-unary"})
+	}
+	buildRequest(rng, sc, m, cp, hostile, e)
+	ss, ok := probe(sc)
+	if ok {
+		buildResponse(rng, sc, m, ss, e)
+		e.Class("pair:" + cp.proto + "->" + ss.proto)
+	} else {
+		sc.Script = [][]string{{"readall", "16"}, {"status", "200"}, {"write", hs("x")}}
+		e.Class("pair:" + cp.proto + "->(not dispatched)")
+	}
+	e.Class("method:" + m.name)
+	return sc
+}
+
+func init() {
+	streams["chunk"] = streamChunk
+	pair := func(a []string) string {
+		return projectForChunking(executors["e2e"]([]string{a[0]})) + " ## " + projectForChunking(executors["e2e"]([]string{a[1]}))
+	}
+	executors["e2e_pair"] = pair
+}
+
+// projectForChunking drops what legitimately depends on the segmentation (per-write results).
+func projectForChunking(obs string) string {
+	var out []string
+	for _, f := range strings.Fields(obs) {
+		if strings.HasPrefix(f, "bw=") {
+			continue
+		}
+		out = append(out, f)
+	}
+	return strings.Join(out, " ")
+}
+
+// normalizeSegmentation returns the same scenario with the coarsest segmentation: the request
+// body in one piece, every read with a huge buffer, consecutive writes merged, no flushes.
+func normalizeSegmentation(sc *Scenario) *Scenario {
+	raw, _ := json.Marshal(sc)
+	var b Scenario
+	_ = json.Unmarshal(raw, &b)
+	var body []byte
+	for _, c := range b.Req.Body {
+		body = append(body, unhx(c)...)
+	}
+	b.Req.Body = nil
+	if len(body) > 0 {
+		b.Req.Body = []string{hx(body)}
+	}
+	var script [][]string
+	for _, op := range b.Script {
+		switch op[0] {
+		case "flush":
+			continue
+		case "readn":
+			script = append(script, []string{"readn", op[1], "65536"})
+		case "readall":
+			script = append(script, []string{"readall", "65536"})
+		case "write":
+			if n := len(script); n > 0 && script[n-1][0] == "write" {
+				script[n-1] = []string{"write", hx(append(unhx(script[n-1][1]), unhx(op[1])...))}
+			} else {
+				script = append(script, []string{"write", op[1]})
+			}
+		default:
+			script = append(script, op)
+		}
+	}
+	b.Script = script
+	return &b
+}
+
+// resegment returns the same scenario under another random segmentation.
+func resegment(rng *rand.Rand, sc *Scenario) *Scenario {
+	b := normalizeSegmentation(sc)
+	if len(b.Req.Body) > 0 {
+		b.Req.Body = splitChunks(rng, unhx(b.Req.Body[0]))
+	}
+	var script [][]string
+	for _, op := range b.Script {
+		switch op[0] {
+		case "readn":
+			script = append(script, []string{"readn", op[1], fmt.Sprint(1 + rng.IntN(7))})
+		case "readall":
+			script = append(script, []string{"readall", fmt.Sprint(pick(rng, []int{1, 2, 3, 4, 5, 6, 7, 64, 4096}))})
+		case "write":
+			script = append(script, writeOps(rng, unhx(op[1]))...)
+		default:
+			script = append(script, op)
+		}
+	}
+	b.Script = script
+	return b
+}
+
+func streamChunk(e *Emitter, rng *rand.Rand, tier string) {
+	n := 700
+	if tier == "thorough" {
+		n = 20000
+	}
+	for i := 0; i < n; i++ {
+		sc := genScenario(e, rng)
+		a, _ := json.Marshal(normalizeSegmentation(sc))
+		var other *Scenario
+		if rng.IntN(2) == 0 {
+			other = sc
+		} else {
+			other = resegment(rng, sc)
+		}
+		b, _ := json.Marshal(other)
+		e.Emit("e2e_pair " + hex.EncodeToString(a) + " " + hex.EncodeToString(b))
 	}
 }
 
